@@ -183,11 +183,11 @@ func (e *Engine) SelectTag(next bool) {
 
 	if next {
 		e.cycleNextGroup()
-		newGrp := e.currentGroup()
-		newGrp.firstCell()
 	} else {
 		e.cyclePreviousGroup()
-		newGrp := e.currentGroup()
+	}
+
+	if newGrp := e.currentGroup(); newGrp != nil {
 		newGrp.firstCell()
 	}
 }
